@@ -20,7 +20,7 @@ Step ==
     \/ a.n = "Birth" /\ Birth(a.o, a.l)
     \/ a.n = "Advance" /\ Advance(a.c, a.t)
     \/ a.n = "Write" /\ (Write(a.l) \/ WriteRefused(a.l))
-    \/ a.n = "Load" /\ Load(a.c, a.t, a.l)
+    \/ a.n = "Load" /\ Load(a.c, a.t, a.l, a.via)
     \/ a.n = "Rotate" /\ Rotate(a.ok)
     \/ a.n = "Merge" /\ Merge(a.c, a.t)
     \/ a.n = "Split" /\ Split({a.k[i] : i \in 1..Len(a.k)})
